@@ -266,3 +266,21 @@ func replayResult(t *testing.T, prop string, o *Outcome) {
 	}
 	t.Fail()
 }
+
+// fuzzSeeds gives the coverage-guided fuzzer starting inputs long enough to drive the generators
+// (rapid.MakeFuzz reads its random choices from the fuzz input; an empty corpus yields only rejected cases).
+func fuzzSeeds(f *testing.F) {
+	for k := uint64(1); k <= 8; k++ {
+		n := 1 << (9 + k%4) // 1..8 KiB
+		b := make([]byte, n)
+		x := k * 0x9e3779b97f4a7c15
+		for i := range b {
+			x ^= x << 13
+			x ^= x >> 7
+			x ^= x << 17
+			b[i] = byte(x >> 40)
+		}
+		f.Add(b)
+	}
+	f.Add(make([]byte, 2048))
+}
